@@ -2,5 +2,5 @@ SPECIFICATION Spec
 CONSTANTS Allowed = {"EXTERNAL", "DBUS_COOKIE_SHA1", "ANONYMOUS"}
   MaxLen = 7
 INVARIANTS AuthenticatedOnlyViaPermittedMech IdentityIsMechIdentity RejectClearsIdentity FailuresBounded
-PROPERTY NoAuthWithoutOk
+PROPERTY NoAuthWithoutOk RejectionsOnlyAddUp
 CHECK_DEADLOCK FALSE
